@@ -213,7 +213,7 @@ def parse_kv(line):
 def corrupt_images(rng, tier):
     """valid library-formatted images with data, then table entries redirected"""
     cases = []
-    n = 40 if tier == 'quick' else 600
+    n = 70 if tier == 'quick' else 600
     for k in range(n):
         cb = rng.choice([9, 9, 10, 12])
         g = hist.Geom(cb, rng.choice([0, 3, 4, 6]), 64 << cb, 9, (9, 1024), (9, 1024))
@@ -303,6 +303,11 @@ def run(tier, seed, replay):
                 (1 << 63) | cs, (1 << 63) | l2off, (1 << 62) | cs, (1 << 62) | (1 << 61) | (cs * 3 + 7), cur | 1, cur | (1 << 62), cur ^ (1 << 63),
                 (1 << 64) - 1, (1 << 64) - cs, cur + cs, cur | 0x1fe]
         v = rng.choice(vals) & ((1 << 64) - 1)
+        if which.startswith('l2') and rng.random() < 0.35:
+            # compressed descriptors whose data lies behind the end of the file, at offsets that are not block aligned
+            flen = len(img)
+            v = (1 << 62) | rng.choice([flen + 355, flen + 3 * cs + 0x1c1, flen // 512 * 512 + 600, flen + 7, (flen + cs) | 0x3ff,
+                                        ((2 << (62 - (g.cb - 8))) | (flen - 100)) if flen > 100 else flen + 9])
         img[pos:pos + 8] = struct.pack('>Q', v)
         ip = os.path.join(d, '%s.mut.img' % cid)
         open(ip, 'wb').write(img)
